@@ -2989,6 +2989,8 @@ def _apply_sifting(
     """Apply Rudell's sifting algorithm."""
     bdd.collect_garbage()
     n = len(bdd)
+    m = n
+        # in case there are no variables
     # using `set` injects some randomness
     levels = bdd._levels()
     names = set(bdd.vars)
